@@ -251,8 +251,7 @@ impl SanitizerConfig {
 
                         if let Some(schemes) = deny_schemes.get(attr_name) {
                             // Check if the scheme is denied.
-                            if schemes.iter().any(|scheme| value.starts_with(&format!("{scheme}:")))
-                            {
+                            if schemes.iter().any(|scheme| uri_has_scheme(value, scheme)) {
                                 return NodeAction::Ignore;
                             }
                         }
@@ -449,6 +448,18 @@ impl SanitizerConfig {
             }
         }
     }
+}
+
+/// Whether a user agent resolves the given URI with the given scheme.
+///
+/// User agents ignore leading C0 control characters and spaces and all ASCII tabs and newlines in a
+/// URI, and schemes are case-insensitive, so `" JAVA\nSCRIPT:"` has the scheme `javascript`.
+fn uri_has_scheme(uri: &str, scheme: &str) -> bool {
+    let mut uri_chars =
+        uri.chars().filter(|c| !matches!(c, '\t' | '\n' | '\r')).skip_while(|c| *c <= ' ');
+
+    scheme.chars().all(|s| uri_chars.next().is_some_and(|c| c.eq_ignore_ascii_case(&s)))
+        && uri_chars.next() == Some(':')
 }
 
 /// The possible actions to apply to an element node.
